@@ -2,7 +2,7 @@
    t: a reference to an ELF sections tag with L section bytes behind its 20-byte fixed
    part (elf_tag_ok: inside memory - what cast establishes).  elf_n/elf_es/elf_sh: the
    stored entry count, entry size and string-table index. *)
-Require Import Bytes Outcome Layout Common TagType Mbi MbiTags MbiAccess C19Proofs.
+Require Import Bytes Outcome Layout Common TagType Mbi MbiTags Strings MbiAccess StringFacts C19Proofs.
 
 (* sections() accepts exactly the tags whose n entries and string-table entry fit; everything else panics *)
 Theorem C19_accept_reject : forall p m t L, elf_tag_ok m t L ->
@@ -65,3 +65,21 @@ Theorem C19_accessors_no_fault : forall p m tag_off L s, section_ok m tag_off L 
   is_fault (elf_section_type_of m s) = false /\ is_fault (elf_name_addr p m s) = false.
 Proof. exact elf_accessors_nofault. Qed.
 Print Assumptions C19_accessors_no_fault.
+
+(* names resolve through the string-table entry the tag designates: name() dereferences exactly
+   (addr field of the designated entry + name_index of this entry) mod 2^64 in the external memory ext,
+   and name_at is the C string found there, UTF-8 checked *)
+Theorem C19_name : forall p m ext tag_off L s, section_ok m tag_off L s ->
+  let b := m_bytes m in
+  (es_es s = 40 -> elf_name p m ext s = name_at ext ((le (slice b (es_str s + 12) 4) + le (slice b (es_inner s) 4)) mod pow2_64)) /\
+  (es_es s = 64 -> elf_name p m ext s = name_at ext ((le (slice b (es_str s + 16) 8) + le (slice b (es_inner s) 4)) mod pow2_64)).
+Proof. exact elf_name_closed. Qed.
+Print Assumptions C19_name.
+
+(* the external read: the returned bytes are those at the address up to (excluding) the first NUL, which is inside ext *)
+Theorem C19_name_bytes : forall ext a bs, ext_cstr ext a = Val bs ->
+  m_base ext <= a /\ a + len bs < m_base ext + len (m_bytes ext) /\
+  bs = slice (m_bytes ext) (a - m_base ext) (len bs) /\
+  (forall j, j < len bs -> StringFacts.nthb bs j <> 0) /\ StringFacts.nthb (m_bytes ext) (a - m_base ext + len bs) = 0.
+Proof. exact ext_cstr_spec. Qed.
+Print Assumptions C19_name_bytes.
